@@ -8,4 +8,4 @@ OBLIGATIONS = [
 ]
 def extra_checks(tier, scratch):
     import grid_astx
-    return [grid_astx.check('nodes'), grid_astx.check_depth(), grid_astx.check_masks(4 if tier == 'quick' else 7), grid_astx.check_options(3 if tier == 'quick' else 5)]
+    return [grid_astx.check('nodes'), grid_astx.check_depth(), grid_astx.check_masks(4 if tier == 'quick' else 7), grid_astx.check_options(3 if tier == 'quick' else 8)]
